@@ -9,6 +9,7 @@ mod hll;
 mod lc;
 mod qf;
 mod rs;
+mod td;
 
 use common::*;
 use serde_json::{json, Value};
@@ -25,6 +26,8 @@ fn replay<S: Sut>(args: &[String]) {
         pair_op: arg(args, "--pair-op").map(|s| s.to_string()),
         seed: arg_u64(args, "--seed", 1),
         max_transitions: arg_u64(args, "--max-transitions", 0),
+        cfg_extra: arg(args, "--cfg-extra").map(|s| serde_json::from_str(s).expect("--cfg-extra json")),
+        mall: args.iter().any(|a| a == "--mall"),
     };
     let st = graph_replay::<S>(gen, &mut out, &mut hist, mout.as_mut(), &opts);
     if let Some(m) = mout.as_mut() {
@@ -101,6 +104,10 @@ fn main() {
         ("replay", "rs") => replay::<rs::RsSut>(&args),
         ("scenario", "rs") => scenario::<rs::RsSut>(&args),
         ("drive", "rs") => rs::drive(&args),
+        ("replay", "td") => replay::<td::TdSut>(&args),
+        ("scenario", "td") => scenario::<td::TdSut>(&args),
+        ("drive", "td") => td::drive(&args),
+        ("rank", "td") => td::rank(&args),
         ("replay", "ck") => replay::<ck::CkSut>(&args),
         ("scenario", "ck") => scenario::<ck::CkSut>(&args),
         ("drive", "ck") => ck::drive(&args),
